@@ -44,6 +44,9 @@ inline std::string digest_case(const uint8_t* data, size_t size, DigestInfo* inf
   if (size > 0 && data[0] >= 0xFE) {  // raw escapes for saved regression inputs
     bool url_mode = b.u8() == 0xFF;
     std::string text = repair_utf8(b.rest());
+    // the pattern route hands the text to std::regex (the test-only provider), which backtracks
+    // exponentially on nested quantifiers: short texts only (the saved inputs are a few bytes)
+    if (!url_mode && text.size() > 12) text.resize(utf8_boundary(text, 12));
     std::string out = url_mode ? "raw-url:" : "raw-init-hash:";
     if (url_mode) {
       auto r = ada::parse<ada::url_aggregator>(text);
@@ -144,6 +147,12 @@ inline std::string digest_case(const uint8_t* data, size_t size, DigestInfo* inf
       std::string in = gen::url(b);
       if (in.size() > 100) in.resize(100);
       for (unsigned char ch : ps + in) if (ch >= 0x80) { ps = "*"; in = "https://a/"; break; }
+      {  // std::regex backtracks exponentially on nested quantifiers ("**", ")+", ":a*"): short inputs then
+        bool nested = false;
+        for (size_t i = 1; i < ps.size(); i++)
+          if ((ps[i] == '*' || ps[i] == '+' || ps[i] == '?') && (ps[i - 1] == '*' || ps[i - 1] == '+' || ps[i - 1] == ')' || ps[i - 1] == '}' || isalnum((unsigned char)ps[i - 1]) || ps[i - 1] == '_')) nested = true;
+        if (nested && in.size() > 14) in.resize(14);
+      }
       render = "URLPattern(\"" + show(ps) + "\").exec(\"" + show(in) + "\")";
       note_kernel(in);
       std::string_view base = "https://example.com/dir/";
